@@ -21,12 +21,38 @@ TOL_EXP = {'f64': 1e-9, 'f32': 1e-3}
 PAIR_ULP = 4.0
 PI = {'f64': math.pi, 'f32': struct.unpack('>f', struct.pack('>f', math.pi))[0]}   # Scalar(M_PI)
 
-NO_T1 = {'conv_se3_iso_ctor', 'conv_se3_iso_rt', 'conv_euler'}
+NO_T1 = {'conv_se3_iso_ctor', 'conv_se3_iso_rt', 'conv_euler', 'conv_euler_xyz'}
+# constructors from parts, construction / assignment between value, Map and Map<const> storage, quat() write access
+# (API-coverage unit, DESIGN 8.10): pure coefficient moves, compared at 0 ulp and audited bit for bit
+CTOR_OPS = ('conv_se2_parts_ctor', 'conv_se2_parts_ctor_map', 'conv_se3_parts_ctor', 'conv_se3_parts_ctor_map', 'conv_gal_parts_ctor',
+            'conv_gal_parts_ctor_dflt', 'conv_sek2_parts_ctor', 'conv_bundle_parts_ctor', 'conv_so3_quat_write')
+COPY_KINDS = ('map', 'cmap', 'asgmap', 'asgcmap', 'mapasg', 'mapasgcmap', 'mapasgmap', 'mapcopy')
+COPY_GROUPS = ('SO2', 'SO3', 'SE2', 'SE3', 'C1', 'GAL', 'SEK2', 'B')
+COPY_OPS = tuple(f'conv_copy_{k}_{g}' for k in COPY_KINDS for g in COPY_GROUPS)
+
+
+def ctor_expected(op, ins, prec):
+    """the documented memory layout of the constructed element, as a permutation of the input words"""
+    if op.startswith('conv_se2_parts_ctor'):
+        return [ins[2], ins[3], ins[0], ins[1]]                    # (x, y, qz, qw)
+    if op.startswith('conv_se3_parts_ctor'):
+        return ins[4:7] + ins[0:4]                                 # (t, q)
+    if op == 'conv_gal_parts_ctor':
+        return ins[4:11] + ins[0:4]                                # (v, p, t, q)
+    if op == 'conv_gal_parts_ctor_dflt':
+        return ins[4:10] + [enc(0.0, prec)] + ins[0:4]             # default time 0
+    if op == 'conv_sek2_parts_ctor':
+        return ins[4:10] + ins[0:4]                                # (p1, p2, q)
+    if op == 'conv_bundle_parts_ctor':
+        return list(ins)                                           # parts in order
+    if op == 'conv_so3_quat_write':
+        return [ins[1], ins[2], ins[3], ins[0]]                    # Eigen stores (x, y, z, w)
+    return None
 EXACT_OPS = ('conv_angle', 'conv_angle_cw', 'conv_angle_ccw', 'conv_u1', 'conv_unit_complex', 'conv_c1_c1',
              'conv_c1_complex_ctor', 'conv_so3_quat', 'conv_so2_ctor', 'conv_so2_complex_ctor', 'conv_so2_angle_ctor',
              'conv_c1_scaling', 'conv_c1_angle', 'conv_c1_so2', 'conv_c1_sa_ctor', 'conv_rot_x', 'conv_rot_y', 'conv_rot_z',
              'conv_se2_iso_ctor',
-             'conv_p1_identity', 'conv_p1_hat', 'conv_p1_ad', 'conv_p2_identity', 'conv_p2_hat', 'conv_p2_ad')
+             'conv_p1_identity', 'conv_p1_hat', 'conv_p1_ad', 'conv_p2_identity', 'conv_p2_hat', 'conv_p2_ad') + CTOR_OPS + COPY_OPS
 T1_ULP = 16.0      # DESIGN §1.3: algebraic ops (Eigen's kernels may associate sums differently); measured <= 4
 
 PAIR_OPS = ('identity', 'matrix', 'compose', 'inverse', 'log', 'Ad', 'exp', 'hat', 'ad', 'dr_exp', 'dr_expinv')
@@ -88,8 +114,8 @@ class C17:
             if l.op == 'conv_se3_iso_ctor' and len(l.outs) == 11:
                 out.append(Line(' '.join(['conv_se3_iso_glue', l.grp, l.prec] + l.ins + l.outs[7:11]) + ' | '
                                 + ' '.join(l.outs[:7]) + ' # ' + l.tag))
-            elif l.op == 'conv_euler' and len(l.outs) == 7:
-                out.append(Line(' '.join(['conv_of_euler', l.grp, l.prec] + l.outs[:3]) + ' | ' + ' '.join(l.outs[3:7])
+            elif l.op in ('conv_euler', 'conv_euler_xyz') and len(l.outs) == 7:
+                out.append(Line(' '.join(['conv_of_euler' + l.op[10:], l.grp, l.prec] + l.outs[:3]) + ' | ' + ' '.join(l.outs[3:7])
                                 + ' # derived'))
             elif l.op not in NO_T1:
                 out.append(l)
@@ -239,11 +265,21 @@ class C17:
                 canon(l, l.outs[3]); canon(l, l.outs[7])
                 areq('conv_a_rot3', l, l.outs, f'rot_{op[-1]}(t) and exp(t e_i) are different rotations')
                 areq('conv_a_rotexp_' + op[-1], l, l.ins + l.outs[4:8], 'matrix(exp(t e_i)) != matrix exponential of hat(t e_i)')
-            elif op == 'conv_of_euler':
+            elif op in ('conv_of_euler', 'conv_of_euler_xyz'):
                 canon(l, l.outs[3])
             elif op == 'conv_euler':
                 canon(l, l.outs[6])
                 areq('conv_a_rot3', l, l.ins + l.outs[3:7], 'rot_z(e0) rot_y(e1) rot_x(e2) of eulerAngles() is not the rotation')
+            elif op == 'conv_euler_xyz':
+                canon(l, l.outs[6])
+                areq('conv_a_rot3', l, l.ins + l.outs[3:7], 'rot_x(e0) rot_y(e1) rot_z(e2) of eulerAngles(0,1,2) is not the rotation')
+            elif op in CTOR_OPS or op in COPY_OPS:
+                stats['bitwise_checks'] += 1
+                exp = list(l.ins) if op in COPY_OPS else ctor_expected(op, list(l.ins), p)
+                if l.outs != exp:
+                    self.find(findings, l, 'permutation', None, 0.0,
+                              ('coefficients changed on the way through ' + op[10:] if op in COPY_OPS else
+                               'constructor from parts does not place its arguments in the documented layout') + ' (bit for bit)')
             elif op == 'conv_se2_isometry':
                 if is_unit(iv[2:4], p):
                     areq('conv_a_se2_iso', l, l.ins + l.outs, 'isometry().matrix() != matrix()')
